@@ -25,6 +25,8 @@ fn exec_line(line: &str, out: &mut Out) -> Option<()> {
         "pfx" => suites::prefix::exec(op, &args, out),
         "buf" => suites::buf::exec(op, &args, out),
         "idx" | "flen" => suites::index::exec(op, &args, out),
+        #[cfg(feature = "full")]
+        "tree" | "hist" => suites::tree::exec(op, &args, out),
         _ => None,
     }
 }
@@ -49,6 +51,10 @@ fn main() {
                 "prefix" => suites::prefix::gen(tier, &mut rng, &mut emit),
                 "buf" => suites::buf::gen(tier, &mut rng, &mut emit),
                 "index" => suites::index::gen(tier, &mut rng, &mut emit),
+                #[cfg(feature = "full")]
+                "tree" => suites::tree::gen(tier, &mut rng, &mut emit),
+                #[cfg(feature = "full")]
+                "hist" => suites::tree::gen_hist(tier, &mut rng, &mut emit),
                 _ => {
                     eprintln!("unknown suite {suite}");
                     std::process::exit(2);
